@@ -191,7 +191,7 @@ type c20Case struct {
 	rawYAML []byte
 }
 
-func b01(b bool) string {
+func c20B01(b bool) string {
 	if b {
 		return "1"
 	}
@@ -218,13 +218,6 @@ func (e *c20Env) run(c *c20Case, out *bufio.Writer, stats map[string]int) {
 	fail := func(s string) {
 		if verdict == "ok" {
 			verdict = "FAIL " + s
-		}
-	}
-	if L != P {
-		if L {
-			fail("keys-disagree: loader accepts the keys, published schema reports an additional property")
-		} else {
-			fail("keys-disagree: published schema accepts the keys, loader reports an unknown field")
 		}
 	}
 	switch c.What {
@@ -280,50 +273,57 @@ func (e *c20Env) run(c *c20Case, out *bufio.Writer, stats map[string]int) {
 			fail("rule entry without a recognised action rejected for another reason (" + class + ")")
 		}
 	}
+	if L != P {
+		if L {
+			fail("keys-disagree: loader accepts the keys, published schema reports an additional property")
+		} else {
+			fail("keys-disagree: published schema accepts the keys, loader reports an unknown field")
+		}
+	}
 	stats[c.What+"/"+class]++
 	detail, _ := json.Marshal(c)
-	fmt.Fprintf(out, "%s %s\tL=%s P=%s R=%s\t%s\t%s\n", c.Kind, c.tokens, b01(L), b01(P), R, verdict, detail)
+	fmt.Fprintf(out, "%s %s\tL=%s P=%s R=%s\t%s\t%s\n", c.Kind, c.tokens, c20B01(L), c20B01(P), R, verdict, detail)
 }
 
-func c20MkCase(kind, what, path, key string, root *ynode) *c20Case {
+func c20MkCase(kind, what, path, key string, root *c20Node) *c20Case {
 	var sb strings.Builder
 	root.tokens(&sb)
 	return &c20Case{Kind: kind, What: what, Path: path, Key: key, tokens: sb.String(), rawYAML: root.render()}
 }
 
 // insert adds key:value at position pos of mapping m (in place)
-func c20Insert(m *ynode, pos int, key string, val *ynode) {
+func c20Insert(m *c20Node, pos int, key string, val *c20Node) {
 	if pos > len(m.keys) {
 		pos = len(m.keys)
 	}
 	m.keys = append(m.keys[:pos], append([]string{key}, m.keys[pos:]...)...)
-	m.vals = append(m.vals[:pos], append([]*ynode{val}, m.vals[pos:]...)...)
+	m.vals = append(m.vals[:pos], append([]*c20Node{val}, m.vals[pos:]...)...)
 }
 
 // variants derives from one valid document: the unknown key injected at every mapping node in
 // turn (exhaustive per document) + a key declared elsewhere, + the Go field name spelling.
-func (e *c20Env) variants(kind, what string, root *ynode, r *rng, out *bufio.Writer, stats map[string]int) int {
+func (e *c20Env) variants(kind, what string, root *c20Node, r *rng, out *bufio.Writer, stats map[string]int) int {
 	f := e.file(kind)
 	n := 0
 	e.run(c20MkCase(kind, what, "", "", root), out, stats)
 	n++
-	var maps []ymapRef
+	var maps []c20MapRef
 	root.mappings("", &maps)
 	for i := range maps {
 		// clone, locate the i-th mapping in the clone
 		cl := root.clone()
-		var cm []ymapRef
+		var cm []c20MapRef
 		cl.mappings("", &cm)
 		m := cm[i]
 		what := "unknown@free"
 		if m.node.rec {
 			what = "unknown@record"
 		}
-		val := &ynode{kind: yScalar, sval: "x"}
+		val := &c20Node{kind: c20KScalar, sval: "x"}
 		if r.chance(30) {
-			val = &ynode{kind: yNull}
+			val = &c20Node{kind: c20KNull}
 		} else if r.chance(20) {
-			val = &ynode{kind: yMap, keys: []string{"a"}, vals: []*ynode{{kind: yScalar, sval: 1}}}
+			val = &c20Node{kind: c20KMap, keys: []string{"a"}, vals: []*c20Node{{kind: c20KScalar, sval: 1}}}
 		}
 		c20Insert(m.node, r.intn(len(m.node.keys)+1), c20Unknown, val)
 		e.run(c20MkCase(kind, what, m.path, c20Unknown, cl), out, stats)
@@ -343,9 +343,9 @@ func (e *c20Env) variants(kind, what string, root *ynode, r *rng, out *bufio.Wri
 					continue
 				}
 				cl2 := root.clone()
-				var cm2 []ymapRef
+				var cm2 []c20MapRef
 				cl2.mappings("", &cm2)
-				c20Insert(cm2[i].node, r.intn(len(cm2[i].node.keys)+1), k, &ynode{kind: yNull})
+				c20Insert(cm2[i].node, r.intn(len(cm2[i].node.keys)+1), k, &c20Node{kind: c20KNull})
 				e.run(c20MkCase(kind, "foreign@record", m.path, k, cl2), out, stats)
 				n++
 				break
@@ -357,9 +357,9 @@ func (e *c20Env) variants(kind, what string, root *ynode, r *rng, out *bufio.Wri
 			k := strings.ToUpper(fl.Key[:1]) + fl.Key[1:]
 			if !declared[k] && k != fl.Key {
 				cl3 := root.clone()
-				var cm3 []ymapRef
+				var cm3 []c20MapRef
 				cl3.mappings("", &cm3)
-				c20Insert(cm3[i].node, 0, k, &ynode{kind: yNull})
+				c20Insert(cm3[i].node, 0, k, &c20Node{kind: c20KNull})
 				e.run(c20MkCase(kind, "goname@record", m.path, k, cl3), out, stats)
 				n++
 			}
@@ -419,11 +419,11 @@ func init() {
 					return fmt.Errorf("struct %s unreachable", f.LEnv[d].Name)
 				}
 				for _, fl := range f.LEnv[d].Fields {
-					c20Insert(inst, 0, fl.Key, &ynode{kind: yNull})
+					c20Insert(inst, 0, fl.Key, &c20Node{kind: c20KNull})
 					env.run(c20MkCase(f.Name, "declared-key", "loader:"+f.LEnv[d].Name, fl.Key, root), out, stats)
 					inst.keys, inst.vals = nil, nil
 				}
-				c20Insert(inst, 0, c20Unknown, &ynode{kind: yNull})
+				c20Insert(inst, 0, c20Unknown, &c20Node{kind: c20KNull})
 				env.run(c20MkCase(f.Name, "unknown@record", "loader:"+f.LEnv[d].Name, c20Unknown, root), out, stats)
 				inst.keys, inst.vals = nil, nil
 			}
@@ -437,11 +437,11 @@ func init() {
 					continue // unreachable $defs member: irrelevant for validation
 				}
 				for _, pp := range f.PEnv[d].Props {
-					c20Insert(inst, 0, pp.Key, &ynode{kind: yNull})
+					c20Insert(inst, 0, pp.Key, &c20Node{kind: c20KNull})
 					env.run(c20MkCase(f.Name, "declared-key", "schema:"+f.PNames[d], pp.Key, root), out, stats)
 					inst.keys, inst.vals = nil, nil
 				}
-				c20Insert(inst, 0, c20Unknown, &ynode{kind: yNull})
+				c20Insert(inst, 0, c20Unknown, &c20Node{kind: c20KNull})
 				env.run(c20MkCase(f.Name, "unknown@record", "schema:"+f.PNames[d], c20Unknown, root), out, stats)
 				inst.keys, inst.vals = nil, nil
 			}
@@ -463,28 +463,23 @@ func init() {
 			for _, rl := range f.RuleLists {
 				listKey := rl[0].(string)
 				udef := int(rl[1].(float64))
-				var members []string
-				for _, u := range f.Unions {
-					if u.Def == udef {
-						members = u.Declared
-					}
-				}
-				mk := func(entries ...*ynode) *ynode {
-					root := &ynode{kind: yMap, rec: true, def: f.LRoot}
+				members := f.members(udef)
+				mk := func(entries ...*c20Node) *c20Node {
+					root := &c20Node{kind: c20KMap, rec: true, def: f.LRoot}
 					if f.Name == "veneers" {
 						root.keys = append(root.keys, "package")
-						root.vals = append(root.vals, &ynode{kind: yScalar, sval: "pkg"})
+						root.vals = append(root.vals, &c20Node{kind: c20KScalar, sval: "pkg"})
 					}
 					root.keys = append(root.keys, listKey)
-					root.vals = append(root.vals, &ynode{kind: ySeq, items: entries})
+					root.vals = append(root.vals, &c20Node{kind: c20KSeq, items: entries})
 					return root
 				}
-				entry := func(k string, v *ynode) *ynode {
-					return &ynode{kind: yMap, rec: true, def: udef, keys: []string{k}, vals: []*ynode{v}}
+				entry := func(k string, v *c20Node) *c20Node {
+					return &c20Node{kind: c20KMap, rec: true, def: udef, keys: []string{k}, vals: []*c20Node{v}}
 				}
 				// a valid, semantically harmless entry: first member for which a minimal or a
 				// generated value loads
-				var good *ynode
+				var good *c20Node
 				gr := newRng(uint64(argInt(args, "seed", 1)) + 77)
 				gen := &c20Gen{f: f, r: gr, maxDepth: 2, kinds: map[string]int{}}
 				for try := 0; try < 40 && good == nil; try++ {
@@ -517,9 +512,9 @@ func init() {
 					c := c20MkCase(f.Name, "member", listKey, m, mk(entry(m, c20Minimal(ty, m))))
 					env.run(c, out, stats)
 					// null member = absent member
-					env.run(c20MkCase(f.Name, "empty-rule", listKey+"/null-member", m, mk(good.clone(), entry(m, &ynode{kind: yNull}))), out, stats)
+					env.run(c20MkCase(f.Name, "empty-rule", listKey+"/null-member", m, mk(good.clone(), entry(m, &c20Node{kind: c20KNull}))), out, stats)
 				}
-				empties := []*ynode{{kind: yMap, rec: true, def: udef}, {kind: yNull}}
+				empties := []*c20Node{{kind: c20KMap, rec: true, def: udef}, {kind: c20KNull}}
 				for ei, em := range empties {
 					what := "empty-rule"
 					if ei == 1 {
@@ -527,8 +522,8 @@ func init() {
 						what = "null-entry"
 					}
 					for pos := 0; pos < 3; pos++ {
-						items := []*ynode{good.clone(), good.clone()}
-						items = append(items[:pos], append([]*ynode{em.clone()}, items[pos:]...)...)
+						items := []*c20Node{good.clone(), good.clone()}
+						items = append(items[:pos], append([]*c20Node{em.clone()}, items[pos:]...)...)
 						env.run(c20MkCase(f.Name, what, fmt.Sprintf("%s/%d", listKey, pos), "", mk(items...)), out, stats)
 					}
 					env.run(c20MkCase(f.Name, what, listKey+"/only", "", mk(em.clone())), out, stats)
@@ -576,6 +571,11 @@ func init() {
 				return err
 			}
 			c.rawYAML = []byte(c.YAML)
+			if c.What == "declared-key" || c.What == "member" {
+				// whether the key is declared depends on the tree being replayed on: only the
+				// tree-independent oracle (loader and published schema agree) applies
+				c.What = "replayed-" + c.What
+			}
 			// tokens of the resolved tree, for the model
 			var n yaml.Node
 			if err := yaml.Unmarshal(c.rawYAML, &n); err != nil {
@@ -628,7 +628,7 @@ func c20NodeTokens(n *yaml.Node, sb *strings.Builder) {
 
 // c20PubPathTo: like c20PathTo, but walking the PUBLISHED tree (so that keys that only the
 // published schema declares are reached too).
-func c20PubPathTo(f *c20File, target int) (*ynode, *ynode) {
+func c20PubPathTo(f *c20File, target int) (*c20Node, *c20Node) {
 	type step struct {
 		def int
 		key string
@@ -668,7 +668,7 @@ func c20PubPathTo(f *c20File, target int) (*ynode, *ynode) {
 	for d := target; d != f.PRoot; d = prev[d].def {
 		chain = append([]step{{prev[d].def, prev[d].key}}, chain...)
 	}
-	root := &ynode{kind: yMap, rec: true}
+	root := &c20Node{kind: c20KMap, rec: true}
 	cur := root
 	for _, st := range chain {
 		var ty c20PTy
@@ -677,14 +677,14 @@ func c20PubPathTo(f *c20File, target int) (*ynode, *ynode) {
 				ty = pp.Ty
 			}
 		}
-		child := &ynode{kind: yMap, rec: true}
-		var wrap func(t c20PTy) *ynode
-		wrap = func(t c20PTy) *ynode {
+		child := &c20Node{kind: c20KMap, rec: true}
+		var wrap func(t c20PTy) *c20Node
+		wrap = func(t c20PTy) *c20Node {
 			switch {
 			case t.K == "arr" && t.Items != nil:
-				return &ynode{kind: ySeq, items: []*ynode{wrap(*t.Items)}}
+				return &c20Node{kind: c20KSeq, items: []*c20Node{wrap(*t.Items)}}
 			case t.K == "obj" && len(t.Props) == 0 && t.Addl != nil && t.Addl.K != "bot" && t.Addl.K != "top":
-				return &ynode{kind: yMap, keys: []string{"k0"}, vals: []*ynode{wrap(*t.Addl)}}
+				return &c20Node{kind: c20KMap, keys: []string{"k0"}, vals: []*c20Node{wrap(*t.Addl)}}
 			case t.K == "ref" && f.PEnv[t.Ref].K != "obj":
 				return wrap(f.PEnv[t.Ref])
 			}
